@@ -73,12 +73,19 @@ class Z3Alg:
 
     not_ = staticmethod(z3.Not)
 
-    @staticmethod
-    def const(v: Any) -> Any:
+    def const(self, v: Any) -> Any:
         if isinstance(v, z3.ExprRef):
             return v
         if hasattr(v, "expr") and isinstance(getattr(v, "expr"), z3.ExprRef):
             return v.expr  # vlib.symexec.SymInt
+        if hasattr(v, "real_term"):
+            # vlib.symexec.SymFloat: a float-valued bind parameter (SQLite compares INTEGER with REAL exactly)
+            self.n += 1
+            r, c = v.real_term(z3.Real(f"fbind!{self.n}"))
+            self.side.append(c)
+            return r
+        if isinstance(v, float):
+            return z3.RealVal(v)
         if isinstance(v, bool):
             return z3.BoolVal(v)
         if isinstance(v, int):
